@@ -513,7 +513,7 @@ fn run_c08(run: &mut Run) {
     run.add("T-FENMENU", json!({"menu_sizes": menus().iter().map(|m| m.len()).collect::<Vec<_>>(), "product": "complete", "single_fault_bases": 4}), true, t0, t);
     let t0 = Instant::now();
     let raws: Vec<Box<dyn crate::universes::RawUniverse>> = vec![
-        Box::new(crate::universes::Castle { extra: if q { 0 } else { 1 } }),
+        Box::new(crate::universes::Castle { extra: if q { 0 } else { 1 }, ek_rank2: false }),
         Box::new(crate::universes::Edit { corpus: corpus.iter().take(if q { 40 } else { 400 }).cloned().collect(), two_edits_for_first: 0 }),
         Box::new(crate::universes::EpUniverse::small()),
     ];
